@@ -189,6 +189,11 @@ def shard_short(ctx, shard: int) -> None:
     assert n == G.short_count(len(G.short_shard_o0s(shard)), full, shard == 0)
 
 
+def shard_short_range(ctx, lo: int, hi: int) -> None:
+    for shard in range(lo, hi):
+        shard_short(ctx, shard)
+
+
 def shard_structured(ctx, lo: int, hi: int) -> None:
     max_steps = 0
     for code, raw, label in G.all_apdus(ctx.seed, range(lo, hi)):
@@ -237,8 +242,11 @@ def selftest(ctx) -> None:
 
 def run(ctx) -> None:
     check_witnesses(ctx)
-    parallel(ctx, shard_short, [(i,) for i in range(G.N_SHORT_SHARDS)])
-    parallel(ctx, shard_structured, [(i, i + 32) for i in range(0, 1024, 32)])
+    # few, large shards: forking is the dominant cost of the quick tier on a busy box
+    jobs = ctx.n(4, 16)
+    per = G.N_SHORT_SHARDS // jobs
+    parallel(ctx, shard_short_range, [(i * per, (i + 1) * per) for i in range(jobs)], procs=jobs)
+    parallel(ctx, shard_structured, [(i * (1024 // jobs), (i + 1) * (1024 // jobs)) for i in range(jobs)], procs=jobs)
     ks = [k for k in ctx.notes if k.startswith("_max_steps:")]
     ctx.notes["max_steps_observed"] = max(int(ctx.notes.pop(k)) for k in ks)
     hyp_search(ctx, G.apdu(), oracle, ctx.n(3000, 40000))
